@@ -302,14 +302,8 @@ func judgeRaw(raw []byte, chainID int64) (vs []evid.Violation, out outcome) {
 		}
 		out.accepted = true
 		vs = append(vs, judgeAccepted(e.name, raw, chainID, addr, res)...)
-		// the result must not alias the caller's buffer: reuse the buffer, the result stays what it was
-		before := resultSnapshot(addr, res)
-		for i := range cp {
-			cp[i] ^= 0x5a
-		}
-		if after := resultSnapshot(addr, res); after != before {
-			vs = append(vs, evid.V("result-independent-of-input-buffer", "%s: the returned fields/payload changed when the caller reused the input buffer:\n before %s\n after  %s", e.name, before, after))
-		}
+		// Not asserted: that the result is independent of the input buffer of the SAME call (a zero-copy view is a
+		// legitimate design and the statement speaks of the value returned); see DESIGN.md 7.4.
 	}
 	// signature-less decode of an EIP-1559 payload
 	var tx *ethsigner.Transaction
